@@ -102,5 +102,9 @@ def enumerate_prefixes(build, max_len):
                 out.append(p)
             else:
                 stack.extend(p + [i] for i in range(e.n))
+        except Exception:  # noqa: BLE001
+            # the body ran past the builder into real code that failed on this concrete prefix:
+            # the prefix is complete; the exploration of that shard will report the failure
+            out.append(p)
     out.sort()
     return out
